@@ -53,6 +53,7 @@ type flWorld struct {
 	npush     [flMaxThr]int
 	forcePop  bool
 	forcePush bool
+	lifo      bool
 	chainMark bool                       // recycled slices carry hasNext + a link, as the elements of a multi-slice message do
 	jsel      [flMaxThr][flMaxOps]uint8  // which held slice a recycle step returns (symbolic, drawn up front)
 	sigs      [flMaxThr][flMaxOps]uint32 // payload signature written by the holder (symbolic, drawn up front)
@@ -179,6 +180,18 @@ func (w *flWorld) step(t, k int, l *bufferList) {
 	}
 	// recycle one of the slices this thread holds
 	j := int(w.jsel[t][k])
+	if w.lifo {
+		// (hookpush family) the most recently allocated slice still held is the one recycled
+		j = -1
+		for i := 0; i < flMaxOps; i++ {
+			if i < k && w.held[t][i] != nil {
+				j = i
+			}
+		}
+		if j < 0 {
+			vfPrune()
+		}
+	}
 	vfAssume(j < k)
 	s := w.held[t][j]
 	vfAssume(s != nil)
@@ -429,6 +442,7 @@ func flHookPush(prop string) {
 	w := flSetup(n, free)
 	vfInfeasibleOK()
 	w.chainMark = vfShape("mark", 0, 1) == 1
+	w.lifo = true
 	for k := 0; k < P; k++ {
 		w.step(1, k, w.views[1])
 	}
